@@ -412,7 +412,7 @@ impl Property for C25Prop {
     fn budget(&self, tier: Tier) -> Budget {
         match tier {
             Tier::Quick => Budget { runs: 15_000, wall_cap_s: 35 },
-            Tier::Thorough => Budget { runs: 200_000, wall_cap_s: 330 },
+            Tier::Thorough => Budget { runs: 150_000, wall_cap_s: 330 },
         }
     }
     fn modes(&self) -> u32 {
